@@ -177,8 +177,9 @@ func ctxOf(i int) interface{} {
 
 type env struct {
 	g          Glue
-	full       bool // include line/column/context in token renderings
-	tokMethods bool // actions call the convenience methods of the tokens they receive
+	full       bool              // include line/column/context in token renderings
+	tokMethods bool              // actions call the convenience methods of the tokens they receive
+	shared     map[string][]byte // c17: texts that several tasks lex are ONE buffer shared by them (lexers only read their source); filled before the tasks start, read-only afterwards
 }
 
 func (e *env) renderTok(ti TokInfo) string {
@@ -490,6 +491,9 @@ func guardsIntact() string {
 
 func (e *env) lexerForSp(text string, fromFile bool, spelling int) Lexer {
 	if !fromFile {
+		if buf, ok := e.shared[text]; ok {
+			return e.g.NewLexer(buf)
+		}
 		return e.g.NewLexer(newGuardedSrc(text))
 	}
 	dir := os.Getenv("VERIF_SRCDIR")
